@@ -12,12 +12,13 @@
      conform:json:null-union-as-empty-object), and the theorems proved carry the exact side condition [nonnull v].
    - JSON theorems are stated on the JSON tree [to_jdoc fmtF d] of the emitted document d; the tie to BYTES goes through the
      strict RFC 8259 parser Codec/Json.parse_json (shared lexical layer, in the trusted base):
-     [json_parse_render_full] states it; it is checked by differential execution (the driver parses every emitted document with
-     Go's encoding/json + duplicate-key/UTF-8 validation and compares the tree with the reference encoding), not proved. *)
+     [json_parse_render] proves it (Proofs/JsonRoundTrip.v: both renderings of any document whose strings and keys are valid UTF-8
+     parse back to [to_jdoc]); the driver additionally parses every emitted document with Go's encoding/json + duplicate-key/UTF-8
+     validation and compares the tree with the reference encoding. *)
 From Coq Require Import List Bool NArith ZArith Permutation.
 From Coq.Strings Require Import Byte.
 From GR Require Import Base.Bytes Base.Res Base.Dec Codec.Schema Codec.Doc Codec.Escape Codec.Json Codec.Render Codec.Encode
-  Codec.Tracker Codec.Decode Gen.TablesCodec Gen.TablesConform Spec.RestliSpec Proofs.CanonProofs Proofs.ConformProofs Proofs.ConformConverse.
+  Codec.Tracker Codec.Decode Gen.TablesCodec Gen.TablesConform Spec.RestliSpec Proofs.CanonProofs Proofs.ConformProofs Proofs.ConformConverse Proofs.JsonRoundTrip.
 Import ListNotations.
 
 (* ---------------------------------------------------------------- soundness of the output: JSON ------------------------- *)
@@ -42,12 +43,14 @@ Theorem json_output_conforms_refuted :
     forall float_text fmtF, ~ json_denotes e float_text t (to_jdoc fmtF d) v.
 Proof. exact ConformProofs.json_output_conforms_refuted. Qed.
 
-(* the byte level (NOT proved; see the reading guide): for documents whose strings and keys are valid UTF-8, and a float
-   formatter that prints JSON numbers, both renderings (compact, pretty) parse under the strict parser to [to_jdoc] *)
+(* the byte level: for documents whose strings and keys are valid UTF-8, and a float formatter that prints JSON numbers,
+   both renderings (compact, pretty) parse under the strict parser to [to_jdoc] *)
 Definition json_parse_render_full : Prop :=
   forall (fmtF : bool -> N -> bytes),
   (forall is32 b, classify_float is32 b = FFinite -> json_number_ok (fmtF is32 b)) ->
   forall pretty d, doc_utf8 d -> parse_json (render_json fmtF pretty 0 d) = Some (to_jdoc fmtF d).
+Theorem json_parse_render : json_parse_render_full.
+Proof. exact JsonRoundTrip.parse_render_json. Qed.
 
 (* ---------------------------------------------------------------- soundness of the output: ROR2 ------------------------- *)
 Definition ror2_output_conforms_full : Prop :=
@@ -251,3 +254,4 @@ Print Assumptions json_accepts_all_conforming_partial.
 Print Assumptions json_accepts_all_conforming_plain.
 Print Assumptions ror2_accepts_conforming_leaves.
 Print Assumptions envelope_names_conform.
+Print Assumptions json_parse_render.
